@@ -37,7 +37,7 @@ def history_of(path, h):
     return out
 
 
-def run_conc(mode, histories, clients, ops, seed, nproc=8, race=False):
+def run_conc(mode, histories, clients, ops, seed, nproc=8, race=False, profiles=None):
     """Returns dict(anomalies=[...], hist_files=[...], histories=n, operations=n, deaths=[...])."""
     tool = ks.build_tool("conc", race=race)
     d = common.scratch("conc-")
@@ -49,7 +49,7 @@ def run_conc(mode, histories, clients, ops, seed, nproc=8, race=False):
         prog = os.path.join(d, "progress-%s-%d" % (mode, i))
         open(prog, "wb").write(struct.pack("<Q", 0))
         cmd = [tool, "-mode", mode, "-seed", str(seed * 1000 + i), "-hist", str(per), "-clients", str(clients), "-ops", str(ops),
-               "-out", path, "-progress", prog, "-hbase", str(i * per), "-pshard", str(i), "-pn", str(nproc)]
+               "-out", path, "-progress", prog, "-hbase", str(i * per), "-pshard", str(i), "-pn", str(nproc)] + (["-profile", profiles] if profiles else [])
         e = None
         if race:    # Go's race detector: every pair of accesses to one memory location that no synchronisation orders
             e = dict(common.env(), GORACE="halt_on_error=0 log_path=%s" % os.path.join(d, "racelog-%s-%d" % (mode, i)))
